@@ -392,6 +392,17 @@ func init() {
 			return term(fr.u.allocRef(st, "cbor"), resTy)
 		})
 	}
+	regI("(cbor.DecMode).NewDecoder", "cbor.DecMode.NewDecoder(r): returns a new, non-nil decoder", func(fr *Frame, st *State, recv *Val, args []*Val, pos token.Pos, resTy types.Type) *Val {
+		return term(fr.u.allocRef(st, "cbor"), resTy)
+	})
+	reg("(github.com/fxamacker/cbor/v2.DecOptions).DecMode", "cbor.DecOptions.DecMode(): for the constant, valid options used by the SDK it returns a non-nil mode and a nil error", func(fr *Frame, st *State, callee *ssa.Function, args []*Val, pos token.Pos, resTy types.Type) *Val {
+		u := fr.u
+		tup := resTy.(*types.Tuple)
+		dm := u.w.newConst("decmode", "Iface")
+		u.fact(fmt.Sprintf("(distinct (ityp %s) T_nil)", dm))
+		u.assume["cbor.DecOptions{ExtraReturnErrors: ExtraDecErrorUnknownField}.DecMode() succeeds (constant, valid options)"] = true
+		return &Val{K: vTuple, Elems: []*Val{term(dm, tup.At(0).Type()), term("(mkIface T_nil boxnil)", tup.At(1).Type())}}
+	})
 	cborFail := func(fr *Frame, st *State, kind string, err string) {
 		// ghost: number of failed decodes of this kind during the call
 		u := fr.u
